@@ -90,10 +90,17 @@ def exact_from(d, obj):
     return ref.Spline.from_defn(d, kvs=kvs_of(obj))
 
 
-def resolve_param(p, kv, n, desc):
-    """Turn a parameter descriptor into a float inside the domain [kv[p], kv[n]] of the *stored* knot vector."""
+def resolve_param(p, kv, n, desc, others=()):
+    """Turn a parameter descriptor into a float inside the domain [kv[p], kv[n]] of the *stored* knot vector.
+    ``others``: knot vectors of the other parametric directions (for the 'other' kind)."""
     a, b = kv[p], kv[n]
     kind = desc[0]
+    if kind == "other":
+        cand = sorted(set(k for okv in others for k in okv if a < k < b))
+        if cand:
+            u = cand[desc[1] % len(cand)]
+            return u, ("knot" if u in kv else "in")
+        kind = "in"
     if kind == "start":
         return a, "start"
     if kind == "end":
@@ -116,8 +123,8 @@ def resolve_param(p, kv, n, desc):
 def resolve_params(obj, descs):
     kvs, degs, szs = kvs_of(obj), degrees_of(obj), sizes_of(obj)
     us, kinds = [], []
-    for p, kv, n, d in zip(degs, kvs, szs, descs):
-        u, k = resolve_param(p, kv, n, d)
+    for i, (p, kv, n, d) in enumerate(zip(degs, kvs, szs, descs)):
+        u, k = resolve_param(p, kv, n, d, others=[o for j, o in enumerate(kvs) if j != i])
         us.append(u)
         kinds.append(k)
     return us, kinds
